@@ -92,7 +92,7 @@ func runC01(args []string) error {
 	t0 := time.Now()
 	sm := newSummary("C01")
 	r := newRng(*seed)
-	nMain, nBound, nFrag := 260, 1, 160
+	nMain, nBound, nFrag := 200, 1, 120
 	if *tier == "thorough" {
 		nMain, nBound, nFrag = 10000, 6, 3000
 	}
@@ -265,8 +265,8 @@ func runC01(args []string) error {
 			if reg := c1ClassifyRegion(c.Src); reg != "" && region == "" {
 				note = "classified syntactically: " + reg
 			}
-			if !*noShrink && time.Since(t0) < 100*time.Second {
-				small := c1Shrink(c.Src, 25*time.Second)
+			if !*noShrink && time.Since(t0) < 70*time.Second {
+				small := c1Shrink(c.Src, 20*time.Second)
 				if small != c.Src {
 					in["shrunk"] = small
 				}
